@@ -191,6 +191,27 @@ pub fn run(ctx: &Ctx, rep: &mut Report) {
             }
         });
     }
+    // ---- decode: long inputs (any width arithmetic on the length must not wrap)
+    {
+        let lens: Vec<usize> = (11..=40).chain([127, 128, 129, 255, 256, 257, 258, 260, 263, 264, 265, 272, 511, 512, 513, 1024, 65535, 65536, 65537, 65544]).collect();
+        let n = lens.len() as u64 * 3;
+        ctx.family(rep, "dec-very-long-strings", "byte strings of 11..40, 127..129, 255..265, 272, 511..513, 1024, 65535..65544 bytes (all zero / all 0xFF / 00..00 01) decoded at all widths: always rejected", n, true, |i, rep| {
+            let len = lens[(i / 3) as usize];
+            let mut s = vec![if i % 3 == 1 { 0xFFu8 } else { 0 }; len];
+            if i % 3 == 2 {
+                s[len - 1] = 1;
+            }
+            for w in WIDTHS {
+                let got = dec_w(w, &s);
+                if got != Ok(None) {
+                    rep.violation(viol("dec-very-long-strings", i, "C06/decode-mismatch", format!("u{} from {} bytes gives {:?}, expected an error", w * 8, len, got), Json::obj().set("length", len).set("width_bytes", w)));
+                    return;
+                }
+            }
+            rep.count("over-long-rejected");
+            rep.bucket(&("long", len.min(300)));
+        });
+    }
     // ---- strings: all sequences <= 4 symbols round-trip
     {
         let n = mccore::strings_upto_count(SYMS.len() as u64, 4);
